@@ -269,7 +269,7 @@ def gen_world(rnd, valid_only=None):
         spec["raw"]["%s/notes.txt" % rnd.choice(dirs)] = "not capy\n"
     # existing files with perfectly valid contents whose names contain `.capy` without ending in it
     near = []
-    for nm in ("w.capy.bak", "lib.capy.txt", "x.capyx"):
+    for nm in ("w.capy.bak", "lib.capy.txt", "x.capyx", "up.CAPY"):
         if rnd.random() < 0.4:
             pth = "%s/%s" % (rnd.choice(dirs), nm)
             spec["raw"][pth] = "id : i64 : 77;\n"
@@ -295,6 +295,7 @@ def gen_world(rnd, valid_only=None):
         add_file("%s/%s/src/mod.capy" % (MODS, name), garbage=rnd.random() < 0.5)
         mods_bad.append(name)
     mods_bad.append("core")      # exists, but has no src/
+    mods_bad.append("")          # the empty name: <mod-dir>//src does not exist
 
     model = Model(spec)
     importable = sorted(p for p in files
